@@ -140,8 +140,12 @@ class Halo:
         return sign * Rat.atom((self.name, c) + tuple(idx))
 
 
-def _width(a, p):
-    return Rat.atom((f"w{a}", max(p, 0)))  # first cell replicated below the domain
+def _width(a, p, wraps=False):
+    """width of cell p of axis a; the cell below the domain is the last cell of the neighbouring copy on a wrapping
+    axis and a replica of the first cell otherwise (zero halo: the weight is immaterial; mirror: the first cell)"""
+    if p < 0 and wraps:
+        return Rat.atom((f"w{a}", N[a] - 1))
+    return Rat.atom((f"w{a}", max(p, 0)))
 
 
 def _colocated(h: Halo, ft, c, cell, nonuni, avg_prev: Halo | None = None):
@@ -156,7 +160,7 @@ def _colocated(h: Halo, ft, c, cell, nonuni, avg_prev: Halo | None = None):
             d = -1 if op == "back" else 1
             ix2 = tuple(v + (d if k == a else 0) for k, v in enumerate(ix))
             if op == "back" and nonuni:
-                wc, wp = _width(a, ix[a]), _width(a, ix[a] - 1)
+                wc, wp = _width(a, ix[a]), _width(a, ix[a] - 1, wraps=h.periodic[a] and h.symmetry[a] == 0)
                 new.append((ix, coef * wp / (wc + wp)))
                 new.append((ix2, coef * wc / (wc + wp)))
             else:
